@@ -981,9 +981,53 @@ def _ref_serve(s):
     return recs, out, ats
 
 
+_RNG_SIZES = (36, 0, 4)
+_UPG_HEAD = re.compile(rb"^(?:GET|POST) /[A-Za-z0-9/_.-]* HTTP/1\.1\r\n((?:[A-Za-z][A-Za-z0-9-]*: [!-~](?:[ -~]*[!-~])?\r\n)*)\r\n\Z")
+
+
+def _ref_ext(t):
+    """RFC 7233 / RFC 6455 reading of the canonical `rng` and `upg` inputs, independent of model and code; None = no opinion"""
+    if t[0] == "rng" and len(t) == 3:
+        n = _RNG_SIZES[int(t[1]) % 3]
+        v = unhex(t[2])
+        m = re.match(rb"^bytes=([0-9]{1,9})-([0-9]{0,9})\Z", v)
+        if m:
+            first = int(m.group(1))
+            if m.group(2) and int(m.group(2)) == 0:
+                return None        # known: property=C10 key=range-end-zero
+            last = int(m.group(2)) if m.group(2) else n - 1
+            last = min(last, n - 1)
+            if first >= n or first > last:
+                return "status=416 cr=bytes_*/%d len=0 body=0" % n
+            return "status=206 cr=bytes_%d-%d/%d len=%d body=%d" % (first, last, n, last - first + 1, last - first + 1)
+        m = re.match(rb"^bytes=-([0-9]{1,9})\Z", v)
+        if m:
+            k = int(m.group(1))
+            if k == 0 or n == 0:
+                return "status=416 cr=bytes_*/%d len=0 body=0" % n
+            first = n - min(k, n)
+            return "status=206 cr=bytes_%d-%d/%d len=%d body=%d" % (first, n - 1, n, n - first, n - first)
+        return None
+    if t[0] in ("upg", "upgf") and len(t) == (3 if t[0] == "upg" else 4):
+        head, frame = unhex(t[1]), unhex(t[2])
+        m = _UPG_HEAD.match(head)
+        if not m:
+            return None
+        names = [l.split(b":")[0].lower() for l in m.group(1).split(b"\r\n") if l]
+        if len(set(names)) != len(names) or any(x in names for x in (b"content-length", b"transfer-encoding", b"expect")):
+            return None
+        if b"Upgrade: websocket\r\n" not in m.group(1) or b"upgrade" not in names:
+            return None
+        # a complete body-less request asking for the websocket protocol: the WebSocket side starts at the first byte behind it
+        return "ho=1 rest=" + adler_rep(frame)
+    return None
+
+
 def reference(line):
     t = line.split()
     try:
+        if t[0] in ("rng", "upg", "upgf"):
+            return _ref_ext(t)
         if t[0] == "srv" and len(t) == 2:
             r = _ref_serve(unhex(t[1]))
             if r is None:
@@ -1280,6 +1324,13 @@ def oracle(case, impl, model, crash):
         c = dispatch_clause(l, o)
         if c:
             return True, c
+    for l, o in zip(lines, outs):
+        if l.split()[0] in ("rng", "upg", "upgf"):
+            exp = reference(l)
+            if exp is not None and o != exp:
+                return True, ("a single satisfiable/unsatisfiable byte range was not answered with begin <= end < size as RFC 7233 reads it (expected %s)" % exp
+                              if l.startswith("rng") else
+                              "the WebSocket server did not receive the connection exactly behind the upgrade request: the HTTP reader consumed more or less than the request head (expected %s)" % exp)
     for l, o in zip(lines, outs):
         exp = reference(l)
         if exp is not None and o != exp:
